@@ -90,3 +90,6 @@ package model
 
 // ghost: the server sequence number (log position) under which an operation is stored
 //@ ghost field Operation.$sseq mathint
+
+// option bits of a push-pull pack (bit = the PushPullBitXXX constant value)
+//@ pred optBit(o uint32, bit uint32) = (o / bit) % 2 == 1
